@@ -588,6 +588,31 @@ def spd(rng, n, kind=None):
     return P
 
 
+def typed_state(rng, defn, pt, State, names_of, p=0.2):
+    """Sometimes the state is handed over as a ready-made integer or float32 array (State.from_data keeps the
+    caller's array): whole-number initial conditions typed without decimal points, logged float32 data.
+    pt is updated in place to the values actually stored.  -> State instance"""
+    import numpy as np
+
+    r = rng.random()
+    if r >= p or not defn["state"]:
+        return State(**{s: pt[s] for s in defn["state"]}), None
+    lay = names_of(State)
+    if r < p / 2:
+        trial = dict(pt)
+        for s in defn["state"]:
+            trial[s] = float(int(round(pt[s]))) if abs(pt[s]) < 1e6 else 0.0
+        if max_exp_argument(defn, dict(trial, **defn["calibration_map"])) > EXP_ARG_LIMIT:
+            return State(**{s: pt[s] for s in defn["state"]}), None
+        pt.update(trial)
+        arr = np.array([[int(pt[n])] for n in lay], dtype=np.int64).reshape(len(lay), 1)
+        return State.from_data(arr), "int64"
+    arr = np.array([[pt[n]] for n in lay], dtype=np.float32).reshape(len(lay), 1)
+    for i, n in enumerate(lay):
+        pt[n] = float(arr[i, 0])
+    return State.from_data(arr), "float32"
+
+
 def collision_twins(rng, defn, pt):
     """Two points for consecutive calls that differ only where one has -1.0 and the other -2.0 (and 0.0 /
     -0.0): distinct inputs that CPython hashes alike (hash(-1.0) == hash(-2.0)), the classic way a memo
